@@ -115,6 +115,13 @@ def _ops(rv):
     return out
 
 
+_ADTS = {}
+
+
+def _known(v):
+    return v in ('Ok', 'Err', 'Some', 'None') or (isinstance(v, tuple) and len(v) == 2)
+
+
 def _succs(t):
     k = t['k']
     if k in ('goto', 'drop', 'assert'):
@@ -150,8 +157,8 @@ def _return_variants(hd):
         for s in blocks[b]['stmts']:
             if s.get('k') == 'assign' and s['place'].get('l') == 0 and not s['place'].get('p'):
                 rv = s['rv']
-                if rv.get('k') == 'aggr' and rv.get('adt') in ('std::result::Result', 'core::result::Result', 'std::option::Option', 'core::option::Option') and rv.get('variant'):
-                    v = rv['variant']
+                if rv.get('k') == 'aggr' and rv.get('kind') == 'adt' and rv.get('variant'):
+                    v = rv['variant'] if rv.get('adt') in ('std::result::Result', 'core::result::Result', 'std::option::Option', 'core::option::Option') else (rv['variant'], rv.get('adt'))
                 else:
                     v = TOP
         t = blocks[b]['term']
@@ -233,7 +240,16 @@ def _thread(ret_block, thread, variant, blocks, new, extra, bo):
     if ret_block['term'].get('k') != 'goto':
         return
     # discriminant values: Result Ok=0 Err=1, Option None=0 Some=1; ControlFlow Continue=0 Break=1 (Ok/Some continue)
-    if thread['kind'] == 'try':
+    if isinstance(variant, tuple):
+        # an enum of the crate: discriminant = declaration index (fieldless / data enums without explicit discriminants)
+        if thread['kind'] == 'try':
+            return
+        a = _ADTS.get(variant[1])
+        names = [v.get('name') for v in (a or {}).get('variants', [])]
+        if variant[0] not in names or any(v.get('discr') not in (None, i) for i, v in enumerate((a or {}).get('variants', []))):
+            return
+        val = names.index(variant[0])
+    elif thread['kind'] == 'try':
         val = 0 if variant in ('Ok', 'Some') else 1
     else:
         val = {'Ok': 0, 'Err': 1, 'None': 0, 'Some': 1}[variant]
@@ -319,10 +335,10 @@ def inline_body(d, helpers, raw_by_path, depth=0, stack=()):
                         preds = [(pi, pb) for pi, pb in enumerate(hd['blocks']) if hi in _succs(pb['term']) and not pb.get('cleanup')]
                         tail_only = all(x.get('k') in ('live', 'dead', 'nop') for x in hb_blk['stmts'])
                         known_all = variants.get(('in', hi))
-                        if known_all in ('Ok', 'Err', 'Some', 'None'):
+                        if _known(known_all):
                             if thread is not None:
                                 _thread(new[hi], thread, known_all, blocks, new, extra, bo)
-                        elif tail_only and len(preds) > 1 and all(variants.get(('out', pi)) in ('Ok', 'Err', 'Some', 'None') for pi, _ in preds):
+                        elif tail_only and len(preds) > 1 and all(_known(variants.get(('out', pi))) for pi, _ in preds):
                             # split the shared return block per predecessor: each copy then has one reaching definition of the result
                             for pi, pb in preds:
                                 v = variants[('out', pi)]
@@ -481,6 +497,8 @@ class Normal:
         raw_by_path = {}
         for b in crate.raw_bodies:
             raw_by_path.setdefault(b.path, b)
+        _ADTS.clear()
+        _ADTS.update(getattr(crate, 'adts', {}) or {})
         self.absorbed = {}
         for p, hb in cands.items():
             cs = callers.get(p, set())
